@@ -139,6 +139,8 @@ let prelude () =
   (* [dcl.init.list] copy-list-initialisation from {} : the definition of etl::is_implicit_default_constructible *)
   add "template <class T> void z_take(T);";
   add "template <class T> constexpr bool z_implicit_default = requires { z_take<T const&>({}); };";
+  (* is_scoped_enum is C++23: its language definition ([dcl.enum]: no implicit conversion to the underlying type) for -std=c++20 *)
+  add "template <class T> constexpr bool lang_scoped_enum = [] { if constexpr (std::is_enum_v<T>) { return !std::is_convertible_v<T, std::underlying_type_t<T>>; } else { return false; } }();";
   add "template <class T> struct z_tmpl { }; template <> struct z_tmpl<char>; struct z_incomplete;";
   add "} // namespace z";
   Buffer.contents b
@@ -378,6 +380,7 @@ let emit tier cfgs seed =
        | Some s ->
            let sv = s t in
            if u.stdnm <> "" then obl "specval" trait key (sp "std::%s_v<%s%s> == %s" u.stdnm r u.args sv);
+           if u.nm = "is_scoped_enum" then obl "specval" trait key (sp "z::lang_scoped_enum<%s> == %s" r sv);
            if sv <> mv then line [ "M"; trait; key; mv; sv ]
        | None -> ())) uvals;
     List.iter (fun u ->
@@ -645,6 +648,149 @@ let emit tier cfgs seed =
                        sp "std::is_same_v<decltype(etl::numeric_limits<%s>::round_style), etl::float_round_style const>" t ])))
         [ ""; " const"; " volatile"; " const volatile" ])
     all_arith;
+  (* ---- review round: the facilities that are compared with std only (author's gap list), on trickier inputs:
+          references binding temporaries, aggregates with parenthesised initialisation, arrays (also of unknown
+          bound), throwing / explicit conversion operators and constructors, pointer-like objects and ref-qualified
+          member functions for INVOKE, cv-qualified and non-class operands of is_base_of *)
+  line [ "H"; "namespace zp { struct B { int b; int f(int); int g(int) const&; int h() &&; int n() noexcept; }; struct D : B { }; struct Agg { int a; int b; }; struct TC { TC(int) noexcept(false); TC(long, long) noexcept; explicit TC(char*) noexcept; operator int() const noexcept(false); explicit operator long() const noexcept; }; struct Abs { virtual void f() = 0; }; struct SP { B& operator*() const; }; struct NTA { NTA& operator=(NTA const&) noexcept(false); NTA& operator=(NTA&&) noexcept; void operator=(int) noexcept; }; }" ];
+  List.iter (fun (tr, a) -> obl "prop" (tr ^ " (probes)") a (sp "etl::%s_v<%s> == std::%s_v<%s> && etl::%s<%s>::value == std::%s_v<%s>" tr a tr a tr a tr a))
+    [
+      "is_nothrow_constructible", "int&, int&";
+      "is_nothrow_constructible", "int&&, int";
+      "is_nothrow_constructible", "int const&, long";
+      "is_nothrow_constructible", "int&, long";
+      "is_nothrow_constructible", "zp::B, zp::D";
+      "is_nothrow_constructible", "zp::B&, zp::D&";
+      "is_nothrow_constructible", "zp::D&, zp::B&";
+      "is_nothrow_constructible", "zp::Agg, int, int";
+      "is_nothrow_constructible", "zp::Agg, int";
+      "is_nothrow_constructible", "zp::Agg";
+      "is_nothrow_constructible", "zp::Agg, int, int, int";
+      "is_nothrow_constructible", "zp::TC, int";
+      "is_nothrow_constructible", "zp::TC, long, long";
+      "is_nothrow_constructible", "zp::TC, char*";
+      "is_nothrow_constructible", "zp::TC, short";
+      "is_nothrow_constructible", "zp::TC, int, int";
+      "is_nothrow_constructible", "int, zp::TC";
+      "is_nothrow_constructible", "long, zp::TC";
+      "is_nothrow_constructible", "int, zp::TC&";
+      "is_nothrow_constructible", "double, zp::TC";
+      "is_nothrow_constructible", "void";
+      "is_nothrow_constructible", "void, int";
+      "is_nothrow_constructible", "int()";
+      "is_nothrow_constructible", "zp::Abs";
+      "is_nothrow_constructible", "int, void";
+      "is_nothrow_constructible", "int[], int";
+      "is_nothrow_constructible", "int[]";
+      "is_nothrow_constructible", "int[2], int";
+      "is_nothrow_constructible", "int[2], int, int, int";
+      "is_nothrow_constructible", "zp::TC[2], int, int";
+      "is_nothrow_constructible", "zp::TC[2], int";
+      "is_nothrow_constructible", "zp::Agg[2], zp::Agg";
+      "is_nothrow_constructible", "int[2][2], int";
+      "is_nothrow_constructible", "int*, int[2]";
+      "is_nothrow_constructible", "int*, decltype(nullptr)";
+      "is_nothrow_constructible", "void*, int*";
+      "is_nothrow_constructible", "int*, void*";
+      "is_constructible", "int[], int";
+      "is_constructible", "int[], int, int";
+      "is_constructible", "int[2][2], int";
+      "is_constructible", "zp::Agg, int, int";
+      "is_constructible", "zp::TC, long, long";
+      "is_constructible", "zp::TC, int, int, int";
+      "is_trivially_constructible", "zp::Agg, int, int";
+      "is_trivially_constructible", "zp::Agg, zp::Agg const&";
+      "is_trivially_constructible", "zp::TC, zp::TC&&";
+      "is_trivially_constructible", "int, long";
+      "is_nothrow_assignable", "zp::NTA&, zp::NTA const&";
+      "is_nothrow_assignable", "zp::NTA&, zp::NTA";
+      "is_nothrow_assignable", "zp::NTA&, int";
+      "is_nothrow_assignable", "zp::NTA, zp::NTA";
+      "is_nothrow_assignable", "zp::NTA const&, zp::NTA";
+      "is_nothrow_assignable", "int&, zp::TC";
+      "is_nothrow_assignable", "long&, zp::TC";
+      "is_nothrow_assignable", "int, int";
+      "is_nothrow_assignable", "int&, void";
+      "is_nothrow_assignable", "void, void";
+      "is_trivially_assignable", "int&, long";
+      "is_trivially_assignable", "zp::Agg&, zp::Agg";
+      "is_trivially_assignable", "zp::NTA&, zp::NTA";
+      "is_invocable", "int zp::B::*, zp::SP";
+      "is_invocable", "int (zp::B::*)(int), zp::SP, int";
+      "is_invocable", "int (zp::B::*)(int), zp::B**, int";
+      "is_invocable", "int (zp::B::*)(int) const&, zp::B, int";
+      "is_invocable", "int (zp::B::*)() &&, zp::B&";
+      "is_invocable", "int (zp::B::*)() &&, zp::B";
+      "is_invocable_r", "int&, int zp::B::*, zp::SP";
+      "is_invocable_r", "int&&, int zp::B::*, zp::B";
+      "is_invocable_r", "int const&, int zp::B::*, zp::B const&";
+      "is_invocable_r", "void, int zp::B::*, zp::B";
+      "is_invocable_r", "zp::TC, int (zp::B::*)(int), zp::B&, int";
+      "is_invocable_r", "char*, int (zp::B::*)(int), zp::B&, int";
+      "is_swappable_with", "zp::B&, zp::D&";
+      "is_swappable_with", "zp::B&, zp::B&";
+      "is_swappable_with", "zp::B&&, zp::B&&";
+      "is_swappable_with", "int&, int&";
+      "is_swappable_with", "int&, int const&";
+      "is_swappable_with", "void, void";
+      "is_swappable_with", "int(&)[2], int(&)[2]";
+      "is_nothrow_swappable_with", "zp::B&, zp::B&";
+      "is_nothrow_swappable_with", "zp::TC&, zp::TC&";
+      "is_nothrow_swappable_with", "zp::NTA&, zp::NTA&";
+      "is_nothrow_swappable_with", "zp::NTA(&)[3], zp::NTA(&)[3]";
+      "is_swappable", "void";
+      "is_swappable", "int()";
+      "is_swappable", "int&";
+      "is_swappable", "int const";
+      "is_swappable", "zp::B[2][3]";
+      "is_swappable", "int[]";
+      "is_swappable", "zp::Abs";
+      "is_nothrow_swappable", "zp::NTA";
+      "is_nothrow_swappable", "zp::NTA[2]";
+      "is_nothrow_swappable", "zp::Abs";
+      "is_nothrow_swappable", "int&&";
+      "is_base_of", "zp::B, zp::D const";
+      "is_base_of", "zp::B volatile, zp::D";
+      "is_base_of", "zp::D, zp::B";
+      "is_base_of", "zp::B, zp::B";
+      "is_base_of", "int, int";
+      "is_base_of", "zp::B&, zp::D&";
+      "is_base_of", "zp::B*, zp::D*";
+      "is_base_of", "zp::Abs, zp::Abs";
+      "is_base_of", "void, void";
+      "is_base_of", "zp::B[2], zp::D[2]";
+      "is_base_of", "zp::B(), zp::D()";
+    ];
+  List.iter (fun a -> obl "prop" "invoke_result (probes)" a (sp "z::invoke_result_agrees<%s>" a))
+    [ "int zp::B::*, zp::SP"; "int zp::B::*, zp::B const volatile&"; "int zp::B::*, zp::B&&"; "int const zp::B::*, zp::B&"; "int (zp::B::*)(int), zp::SP, short"; "int (zp::B::*)(int) const&, zp::D, int"; "int (zp::B::*)() &&, zp::D"; "int (zp::B::*)() noexcept, zp::D*"; "int zp::B::*, zp::B*&"; "int zp::B::*, zp::B* const"; "int (&)(int), char"; "int (*const&)(int), char"; "int (*volatile)(int), char"; "void"; "int"; "int, int"; "int zp::B::*"; "int zp::B::*, zp::B, zp::B" ];
+  (* ---- review round: INCOMPLETE types (declared, never defined): every trait that does not need a complete type *)
+  line [ "H"; "namespace zi { struct I; union IU; enum IE : int; enum class IS; }" ];
+  List.iter (fun t ->
+      obl "prop" "incomplete types" t
+        (String.concat " && "
+           (List.map (fun tr -> sp "etl::%s_v<%s> == std::%s_v<%s>" tr t tr t)
+              [ "is_class"; "is_union"; "is_enum"; "is_pointer"; "is_reference"; "is_function"; "is_object"; "is_scalar"; "is_compound";
+                "is_fundamental"; "is_arithmetic"; "is_const"; "is_volatile"; "is_array"; "is_void"; "is_member_pointer";
+                "is_member_object_pointer"; "is_member_function_pointer"; "is_null_pointer"; "is_integral"; "is_floating_point";
+                "is_signed"; "is_unsigned"; "rank"; "extent"; "is_bounded_array"; "is_unbounded_array"; "is_lvalue_reference";
+                "is_rvalue_reference" ]
+            @ List.map (fun tr -> sp "std::is_same_v<etl::%s_t<%s>, std::%s_t<%s>>" tr t tr t)
+                [ "remove_cv"; "remove_const"; "remove_volatile"; "add_const"; "add_volatile"; "add_cv"; "remove_reference";
+                  "add_lvalue_reference"; "add_rvalue_reference"; "add_pointer"; "remove_pointer"; "remove_extent";
+                  "remove_all_extents"; "decay"; "remove_cvref"; "type_identity" ]
+            @ [ sp "etl::is_same_v<%s, %s> && !etl::is_same_v<%s, int> && std::is_same_v<etl::conditional_t<false, int, %s>, %s> && z::common_type_agrees<%s*, %s*> && z::lang_scoped_enum<zi::IS> == etl::is_scoped_enum_v<zi::IS> && !etl::is_scoped_enum_v<zi::IE>" t t t t t "zi::I" "zi::I" ])))
+    [ "zi::I"; "zi::I const"; "zi::I*"; "zi::I&"; "zi::I&&"; "zi::I[]"; "zi::I const volatile[]"; "zi::I[][3]"; "int zi::I::*";
+      "void (zi::I::*)() const"; "zi::I (*)(zi::I)"; "zi::I(zi::I)"; "zi::IU"; "zi::IU*"; "zi::IE"; "zi::IS"; "zi::IE const";
+      "zi::I* const volatile"; "zi::I (&)[]"; "zi::I (*)[2]" ];
+  List.iter (fun (tr, a) -> obl "prop" (tr ^ " (incomplete types)") a (sp "etl::%s_v<%s> == std::%s_v<%s>" tr a tr a))
+    [ "is_convertible", "zi::I*, void*"; "is_convertible", "zi::I&, zi::I&"; "is_convertible", "zi::I&, zi::I const&";
+      "is_convertible", "zi::I*, zi::I const*"; "is_convertible", "zi::IE, int"; "is_convertible", "zi::IS, int";
+      "is_base_of", "zi::I, zi::I"; "is_base_of", "zi::I, int"; "is_base_of", "zi::IU, zi::IU"; "is_base_of", "zi::I const, zi::I";
+      "is_destructible", "zi::I&"; "is_copy_constructible", "zi::I&"; "is_move_constructible", "zi::I&&"; "is_copy_assignable", "zi::I*";
+      "is_nothrow_destructible", "zi::I&"; "is_trivially_destructible", "zi::I&"; "is_assignable", "zi::I*&, zi::I*";
+      "is_constructible", "zi::I const&, zi::I&" ];
+  obl "prop" "incomplete types" "enumerations"
+    "std::is_same_v<etl::underlying_type_t<zi::IE>, int> && std::is_same_v<etl::underlying_type_t<zi::IS>, std::underlying_type_t<zi::IS>> && std::is_same_v<etl::make_signed_t<zi::IE>, std::make_signed_t<zi::IE>> && std::is_same_v<etl::make_unsigned_t<zi::IS const>, std::make_unsigned_t<zi::IS const>> && etl::derived_from<zi::I, zi::I> == std::derived_from<zi::I, zi::I> && etl::convertible_to<zi::I&, zi::I const&> == std::convertible_to<zi::I&, zi::I const&> && etl::same_as<zi::I, zi::I>";
   (* ---- review round: classes that separate the conjuncts of the concepts (each conjunct is the only false one
           for some class below), relations that lack exactly one of the four argument orders, byte's compound
           assignment operators *)
@@ -819,6 +965,21 @@ let run_case op t =
         | Some (n1, d1), Some (n2, d2) -> "ok " ^ b2s (fs n1 d1 n2 d2)
         | _ -> "illformed" in
       (m, s)
+  | "ksign" ->
+      let v = next_z t in
+      ("ok " ^ str_of_z (sign_m v), match sign_spec v with Some s -> "ok " ^ str_of_z s | None -> "na")
+  | "kabs" ->
+      let v = next_z t in
+      ((match abs_m v with Some a -> "ok " ^ str_of_z a | None -> "illformed"),
+       (match abs_spec v with Some a -> "ok " ^ str_of_z a | None -> "na"))
+  | "kgcd" ->
+      let m = next_z t in let n = next_z t in
+      ((match gcd_m m n with Some g -> "ok " ^ str_of_z g | None -> "fuel"),
+       (match gcd_spec m n with Some g -> "ok " ^ str_of_z g | None -> "na"))
+  | "kless" ->
+      let n1 = next_z t in let d1 = next_z t in let n2 = next_z t in let d2 = next_z t in
+      ((match ratio_less_m n1 d1 n2 d2 with Some b -> "ok " ^ b2s b | None -> "fuel-or-overflow"),
+       "ok " ^ b2s (ratio_less_spec n1 d1 n2 d2))
   | _ -> raise Not_found
 
 let () =
